@@ -46,7 +46,8 @@ Inductive weighting :=
 | WArray (k : wkind) (aid : Z) (e : expo)      (* ArrayWeighting: the array OBJECT aid *)
 | WInner (k : wkind) (fid : Z)                 (* CustomInner, exponent 2.0 *)
 | WNorm (k : wkind) (fid : Z)                  (* CustomNorm,  exponent 1.0 *)
-| WDist (k : wkind) (fid : Z).                 (* CustomDist,  exponent 1.0 *)
+| WDist (k : wkind) (fid : Z)                  (* CustomDist,  exponent 1.0 *)
+| WMatrix (mid : Z) (e : expo).                (* MatrixWeighting (dense): the matrix OBJECT mid *)
 
 (* NumpyTensorSpace(shape, dtype, weighting) *)
 Record tsp := { ts_shape : list Z; ts_dtype : dtype; ts_w : weighting }.
